@@ -166,7 +166,7 @@ Section BlockFacts.
     tiling polygon pos -> stacked layerlist -> off_boundaries layerlist z ->
     (1 <= li)%nat -> blk_contains li col pos z = true ->
     near_point bbox col pos = true ->
-    (forall t, qt = Some t -> connected_near nbrs bbox t pos col) ->
+    (forall t, qt = Some t -> qtree_finds nbrs bbox t pos col) ->
     bcp pos z qt = Some (li, col).
   Proof.
     intros Ht Hs Ho Hli B Hn Hq. unfold Locate.block_contains_point in B.
